@@ -269,7 +269,38 @@ func fromString(s string) window {
 	return w
 }
 
+// runFirstTouchStorm: 2-4 goroutines released from a barrier record one failure each for a NodePool UID nobody touched
+// before (new pool, or first touches after a restart). Recording a failure commutes with recording a failure, so the
+// outcome does not depend on the interleaving: n >= 2 failures in an empty window make the pool Unhealthy, and the
+// what-if for one more success must agree with recording it.
+func runFirstTouchStorm(r *mon.Report, rng *rand.Rand, rounds int) {
+	st := nodepoolhealth.NewState()
+	for k := 0; k < rounds; k++ {
+		uid := types.UID(fmt.Sprintf("np-%d", k))
+		n := 2 + rng.Intn(3)
+		start := make(chan struct{})
+		var wg sync.WaitGroup
+		for g := 0; g < n; g++ {
+			wg.Add(1)
+			go func() {
+				defer wg.Done()
+				<-start
+				st.Update(uid, false)
+			}()
+		}
+		close(start)
+		wg.Wait()
+		r.Inc("first_touch_storm_rounds")
+		if got := st.Status(uid); got != nodepoolhealth.StatusUnhealthy {
+			r.Violate("concurrent-first-touch-loses-an-outcome", fmt.Sprintf("%d launch failures were recorded concurrently for a NodePool nobody had touched; the status is %d, not Unhealthy (%d): a recorded outcome was lost", n, got, nodepoolhealth.StatusUnhealthy),
+				map[string]any{"goroutines": n, "round": k}, nil)
+			return
+		}
+	}
+}
+
 func runConcurrent(r *mon.Report, rng *rand.Rand) {
+	runFirstTouchStorm(r, rng, 3000)
 	st := nodepoolhealth.NewState()
 	uid := types.UID("np")
 	nG := 3 + rng.Intn(4)
